@@ -1,4 +1,5 @@
 import FractopoModel.Model.Snap
+import FractopoModel.Lemmas.SnapLoop
 import FractopoModel.Generated.Windows
 import FractopoModel.Generated.DegreeToClass
 import FractopoModel.Props.C05
@@ -73,6 +74,49 @@ theorem C06_replace (vs : List P) (p : P) (k : Nat) (hk : k < vs.length) :
 
 /-- once connected, the abutment is a Y-node: three branch ends meet there (from C05) -/
 theorem C06_connected_is_Y : Gen.degree_to_class 2 = "Y" := by decide
+
+/-! ### the snapping pass as a whole (`Model/SnapLoop.lean`, tied to `snap_traces` and to the loop inside
+`branches_and_nodes` by stream S06-snappass) -/
+
+/-- **Nothing within the threshold ⇒ nothing moves.** On a map where no decision predicate of either
+stage fires (`quietMap`, a decidable condition the driver evaluates on every generated map) one pass
+returns the traces unchanged, in order, and reports no change — for any number of traces, any areas,
+either candidate order. -/
+theorem C06_quiet_pass_identity (ord : SnapL.Ord) (t margin : Rat) (areas : List Polygon) (traces : List Polyline)
+    (h : SnapL.quietMap ord t margin traces = true) : SnapL.snapPass ord t margin areas traces = .ok (traces, false) :=
+  SnapL.snapPass_quiet ord t margin areas traces h
+
+/-- … and the repeat-until-stable stage ends after the first pass, never raising -/
+theorem C06_quiet_loop_identity (ord : SnapL.Ord) (t margin : Rat) (areas : List Polygon) (allowed : Nat) (traces : List Polyline)
+    (h : SnapL.quietMap ord t margin traces = true) : SnapL.snapLoop ord t margin areas allowed traces = .ok (traces, 0) :=
+  SnapL.snapLoop_quiet ord t margin areas allowed traces h
+
+/-- the snapping stage returns only after at most `allowed` repeat passes (otherwise it raises), and
+every pass keeps the number and order of the traces -/
+theorem C06_loop_bound (ord : SnapL.Ord) (t margin : Rat) (areas : List Polygon) (allowed : Nat) (traces out : List Polyline) (n : Nat)
+    (h : SnapL.snapLoop ord t margin areas allowed traces = .ok (out, n)) : n ≤ allowed :=
+  SnapL.snapLoop_bound ord t margin areas allowed traces out n h
+
+theorem C06_pass_keeps_rows (ord : SnapL.Ord) (t margin : Rat) (areas : List Polygon) (traces out : List Polyline) (ch : Bool)
+    (h : SnapL.snapPass ord t margin areas traces = .ok (out, ch)) : out.length = traces.length :=
+  SnapL.snapPass_length ord t margin areas traces out ch h
+
+/-- **Moves are bounded by the threshold**: an end is moved only onto a vertex strictly closer than the
+threshold, and an end is inserted into another trace only when strictly within the threshold of it and
+not already on it -/
+theorem C06_moves_within_threshold (t : Rat) (trace c another : Polyline) (ep v : Pt) (eps : List Pt) :
+    (SnapL.simpleTarget t trace c ep = some v → Pt.dist2 v ep < t * t) ∧
+    ((SnapL.snapToAnother t eps another).2 = true → ∃ e ∈ eps, SnapL.near t e another = true ∧ SnapL.onLine e another = false) :=
+  ⟨SnapL.simpleTarget_close t trace c ep v, SnapL.snapToAnother_changed t eps another⟩
+
+/-- non-vacuity: a T-abutment that touches exactly is quiet; the same end 1/200 short of the target is
+inserted into the target by one pass (threshold 1/100), and a second pass changes nothing -/
+example :
+    SnapL.quietMap .asc (1/100) (1/5) [[⟨0, 0⟩, ⟨10, 0⟩], [⟨4, 0⟩, ⟨4, 5⟩]] = true ∧
+    SnapL.snapPass .asc (1/100) (1/5) [] [[⟨0, 0⟩, ⟨10, 0⟩], [⟨4, 1/200⟩, ⟨4, 5⟩]]
+      = .ok ([[⟨0, 0⟩, ⟨4, 1/200⟩, ⟨10, 0⟩], [⟨4, 1/200⟩, ⟨4, 5⟩]], true) ∧
+    SnapL.snapLoop .asc (1/100) (1/5) [] 10 [[⟨0, 0⟩, ⟨10, 0⟩], [⟨4, 1/200⟩, ⟨4, 5⟩]]
+      = .ok ([[⟨0, 0⟩, ⟨4, 1/200⟩, ⟨10, 0⟩], [⟨4, 1/200⟩, ⟨4, 5⟩]], 1) := by decide +kernel
 
 example : apply [1, 2, 3, 4] 9 (choose 4 1 false false) = [1, 2, 9, 3, 4] ∧ apply [1, 2, 3, 4] 9 (choose 4 1 true true) = [1, 2, 9, 4] ∧
     apply [1, 2, 3, 4] 9 (choose 4 2 true true) = [1, 2, 3, 9, 4] := by decide
